@@ -35,7 +35,7 @@ VARIABLES
 vars == <<cap, permits, sub, table, open, queue, wire, path>>
 View == <<cap, permits, sub, table, open, queue, wire>>
 
-NoSub == [st |-> "idle", sinks |-> 0, pend |-> FALSE, unsub |-> FALSE, sent |-> 0, ret |-> FALSE]
+NoSub == [st |-> "idle", sinks |-> 0, pend |-> FALSE, unsub |-> FALSE, sent |-> 0, ret |-> FALSE, chk |-> "none"]
 Init == /\ cap \in Caps
         /\ permits = [c \in Conns |-> cap]
         /\ sub = [k \in SubOps |-> NoSub]
@@ -52,14 +52,15 @@ Bounded == MaxDepth = 0 \/ Len(path) < MaxDepth
 
 (* ---- the subscribe call reaches RpcService::call: permit or -32006 (rpc.rs:107-132) ---- *)
 Subscribe(k) ==
-  /\ Bounded /\ sub[k].st = "idle" /\ open[ConnOf[k]]
+  /\ Bounded /\ sub[k].st = "idle"
   /\ IF permits[ConnOf[k]] > 0
        THEN /\ permits' = [permits EXCEPT ![ConnOf[k]] = @ - 1]
             /\ sub' = [sub EXCEPT ![k] = [@ EXCEPT !.st = "pending", !.pend = TRUE]]
             /\ Step([o |-> "subscribe", k |-> k], "started")
             /\ UNCHANGED queue
        ELSE /\ sub' = [sub EXCEPT ![k].st = "refused"]
-            /\ queue' = Enq(ConnOf[k], [t |-> "err", k |-> k, code |-> -32006])
+            /\ (open[ConnOf[k]] => Room(ConnOf[k]))
+            /\ queue' = IF open[ConnOf[k]] THEN Enq(ConnOf[k], [t |-> "err", k |-> k, code |-> -32006]) ELSE queue
             /\ Step([o |-> "subscribe", k |-> k], "e32006")
             /\ UNCHANGED permits
   /\ UNCHANGED <<cap, table, open, wire>>
@@ -105,6 +106,17 @@ DropPending(k) ==
   /\ Step([o |-> "dropPending", k |-> k], "ok")
   /\ UNCHANGED <<cap, table, open, wire>>
 
+(* dropping the pending sink, split for the concurrent trace spec: the permit returns with the drop, the -32603 answer of the *)
+(* subscribe call is produced by the call's own future afterwards (rpc_module.rs:855-866, ws.rs:167-176)                    *)
+DropPendingNoEnq(k) ==
+  /\ sub[k].st = "pending" /\ sub[k].pend
+  /\ sub' = [sub EXCEPT ![k] = [@ EXCEPT !.st = "droppedPending", !.pend = FALSE]]
+  /\ permits' = [permits EXCEPT ![ConnOf[k]] = @ + 1]
+  /\ UNCHANGED <<cap, table, open, queue, wire, path>>
+ErrEnqueue(k, code) ==
+  /\ IF open[ConnOf[k]] THEN Room(ConnOf[k]) /\ queue' = Enq(ConnOf[k], [t |-> "err", k |-> k, code |-> code]) ELSE UNCHANGED queue
+  /\ UNCHANGED <<cap, permits, sub, table, open, wire, path>>
+
 (* ---- SubscriptionSink clones (subscription.rs:270-285, Drop :414-420) ---- *)
 Closed(k) == sub[k].unsub \/ ~open[ConnOf[k]] \/ (k \notin table /\ sub[k].st = "accepted")
 SinkClone(k) ==
@@ -113,23 +125,43 @@ SinkClone(k) ==
   /\ Step([o |-> "clone", k |-> k], "ok")
   /\ UNCHANGED <<cap, permits, table, open, queue, wire>>
 SinkDrop(k) ==
-  /\ Bounded /\ sub[k].sinks > 0
+  /\ Bounded /\ sub[k].sinks > 0 /\ (sub[k].sinks = 1 => sub[k].chk = "none")
   /\ sub' = [sub EXCEPT ![k].sinks = @ - 1]
   /\ table' = IF sub[k].sinks = 1 \/ "F4" \in Dev THEN table \ {k} ELSE table      \* design: only the last clone unsubscribes
   /\ permits' = IF sub[k].sinks = 1 THEN [permits EXCEPT ![ConnOf[k]] = @ + 1] ELSE permits
   /\ Step([o |-> "dropSink", k |-> k], "ok")
   /\ UNCHANGED <<cap, open, queue, wire>>
 
-(* ---- SubscriptionSink::send: check closed, then enqueue (subscription.rs:338-353) ---- *)
-Send(k) ==
-  /\ Bounded /\ sub[k].sinks > 0 /\ sub[k].sent < MaxSends
+(* ---- SubscriptionSink::send (subscription.rs:338-353) is two steps: read the closed state, then an awaited enqueue. ---- *)
+(* A send that passed its check before the subscription was closed may still be delivered after the close.              *)
+SendCheck(k) ==
+  /\ Bounded /\ sub[k].sinks > 0 /\ sub[k].sent < MaxSends /\ sub[k].chk = "none"
   /\ IF Closed(k)
-       THEN /\ Step([o |-> "send", k |-> k], "err") /\ UNCHANGED <<sub, queue>>
-       ELSE /\ Room(ConnOf[k])
-            /\ sub' = [sub EXCEPT ![k].sent = @ + 1]
+       THEN /\ Step([o |-> "send", k |-> k], "err") /\ UNCHANGED sub
+       ELSE /\ sub' = [sub EXCEPT ![k].chk = "passed"] /\ UNCHANGED path
+  /\ UNCHANGED <<cap, permits, table, open, queue, wire>>
+SendEnqueue(k) ==
+  /\ sub[k].chk = "passed"
+  /\ IF open[ConnOf[k]]
+       THEN /\ Room(ConnOf[k])
+            /\ sub' = [sub EXCEPT ![k] = [@ EXCEPT !.sent = @ + 1, !.chk = "none"]]
             /\ queue' = Enq(ConnOf[k], [t |-> "notif", k |-> k, n |-> sub[k].sent + 1])
             /\ Step([o |-> "send", k |-> k], "ok")
+       ELSE /\ sub' = [sub EXCEPT ![k].chk = "none"]                      \* the channel closed while the send was waiting
+            /\ Step([o |-> "send", k |-> k], "err") /\ UNCHANGED queue
   /\ UNCHANGED <<cap, permits, table, open, wire>>
+
+(* reject() in two steps for the concurrent trace spec: the error answer is enqueued, the permit is released when reject() returns *)
+RejectEnqueue(k) ==
+  /\ sub[k].st = "pending" /\ sub[k].pend /\ (Room(ConnOf[k]) \/ ~open[ConnOf[k]])
+  /\ sub' = [sub EXCEPT ![k].st = "rejected"]
+  /\ queue' = IF open[ConnOf[k]] THEN Enq(ConnOf[k], [t |-> "err", k |-> k, code |-> 1]) ELSE queue
+  /\ UNCHANGED <<cap, permits, table, open, wire, path>>
+RejectRelease(k) ==
+  /\ sub[k].st = "rejected" /\ sub[k].pend
+  /\ sub' = [sub EXCEPT ![k].pend = FALSE]
+  /\ permits' = [permits EXCEPT ![ConnOf[k]] = @ + 1]
+  /\ UNCHANGED <<cap, table, open, queue, wire, path>>
 
 (* ---- the unsubscribe call (rpc_module.rs:998-1028): removes the entry under the lock, answers whether it was there ---- *)
 Unsub(c, k) ==
@@ -153,6 +185,23 @@ HandlerReturn(k, closing) ==
   /\ Step([o |-> "return", k |-> k, closing |-> closing], "ok")
   /\ UNCHANGED <<cap, permits, table, open, wire>>
 
+(* the same split in two for the concurrent trace spec: the handler returns, the close notification is enqueued a bit later *)
+HandlerReturnNoEnq(k) ==
+  /\ ~sub[k].ret /\ sub[k].st = "accepted" /\ sub[k].sinks = 0
+  /\ sub' = [sub EXCEPT ![k].ret = TRUE]
+  /\ UNCHANGED <<cap, permits, table, open, queue, wire, path>>
+CloseEnqueue(k) ==
+  /\ sub[k].ret
+  /\ IF open[ConnOf[k]] THEN Room(ConnOf[k]) /\ queue' = Enq(ConnOf[k], [t |-> "close", k |-> k]) ELSE UNCHANGED queue
+  /\ UNCHANGED <<cap, permits, sub, table, open, wire, path>>
+(* the writer stops: it closes the socket first and its receiver afterwards (ws.rs:264-265), so what is still queued - and  *)
+(* what handlers manage to enqueue in between, with a successful send - is dropped                                         *)
+ConnCloseKeepQueue(c) ==
+  /\ open[c]
+  /\ open' = [open EXCEPT ![c] = FALSE]
+  /\ queue' = [queue EXCEPT ![c] = <<>>]
+  /\ UNCHANGED <<cap, permits, sub, table, wire, path>>
+
 (* ---- the connection ends (peer gone or server stopped): the writer closes its receiver ---- *)
 ConnClose(c) ==
   /\ Bounded /\ open[c]
@@ -168,7 +217,7 @@ WriterSend(c) ==
   /\ queue' = [queue EXCEPT ![c] = Tail(@)]
   /\ UNCHANGED <<cap, permits, sub, table, open, path>>
 
-Acts == \/ \E k \in SubOps : Subscribe(k) \/ Accept(k) \/ AcceptInsert(k) \/ Reject(k) \/ DropPending(k) \/ SinkClone(k) \/ SinkDrop(k) \/ Send(k)
+Acts == \/ \E k \in SubOps : Subscribe(k) \/ Accept(k) \/ AcceptInsert(k) \/ Reject(k) \/ DropPending(k) \/ SinkClone(k) \/ SinkDrop(k) \/ SendCheck(k) \/ SendEnqueue(k)
         \/ \E k \in SubOps, b \in BOOLEAN : HandlerReturn(k, b)
         \/ \E c \in Conns, k \in SubOps : Unsub(c, k)
         \/ \E c \in Conns : ConnClose(c) \/ WriterSend(c)
@@ -199,7 +248,7 @@ Inv_ResponseBeforeNotifs ==
 Inv_PerSubFifo ==
   \A c \in Conns : \A i, j \in 1..Len(wire[c]) :
       i < j /\ wire[c][i].t = "notif" /\ wire[c][j].t = "notif" /\ wire[c][i].k = wire[c][j].k => wire[c][i].n < wire[c][j].n
-Inv_OwnConnection == \A c \in Conns : \A i \in 1..Len(wire[c]) : ConnOf[wire[c][i].k] = c \/ wire[c][i].t = "unsubResp"
+Inv_OwnConnection == \A c \in Conns : \A i \in 1..Len(wire[c]) : wire[c][i].t = "unsubResp" \/ ConnOf[wire[c][i].k] = c
 Inv_CloseAtMostOnceAndOnlyIfAccepted ==
   \A c \in Conns : \A k \in SubOps :
       LET cl == {i \in 1..Len(wire[c]) : wire[c][i].t = "close" /\ wire[c][i].k = k} IN
